@@ -6,6 +6,29 @@ BASE_NOTE = ("Trusted: Coq 8.16.1 kernel (+vm_compute for finite sweeps), ExtrOc
              "Python generators/zlib. The hand-written Gallina model is tied to /repo by the correspondence run of this check "
              "(differential, generated cases) and a regenerated constants file; ")
 CLAIMED = {
+ "C01": dict(
+   text="Hand-written executable Gallina model of the whole optimisation pipeline (from_slice, all reductions incl. palette sorters, perform_reductions, "
+        "evaluator, perform_trials, optimize_raw/png, output), replayed against the real code on every run under the recorded zlib oracle: byte-identical outputs. "
+        "Machine-checked theorems (Properties/C01.v, labelled _partial): per-pixel losslessness of the 8/16-bit reductions incl. the colour-key conversion, and the row-filter stage. "
+        "Every image any reduction produces and every output file (also after 2-3 chained runs) is decoded by the extracted specification and compared with the input at 16-bit RGBA.",
+   design="DESIGN.md §3 C01",
+   note=BASE_NOTE + "PARTIAL: the lift of the pixel lemmas to whole images (layout invariance), the palette/sub-byte reductions and the pipeline composition are not yet proved in Coq; "
+        "they are decided per run by correspondence + specification oracle. zlib is an oracle (compressors deterministic, inflate(deflate x) = x; re-validated with Python zlib).",
+   technique="Coq proof (pixel-level lemmas, filter round trip) + whole-pipeline model replay + extracted spec decoder as oracle"),
+ "C03": dict(
+   text="Machine-checked (Properties/C03.v): alpha-equivalence is an equivalence relation and every recolouring of a fully transparent pixel (incl. replacement by a colour-key sample) stays inside it. "
+        "The model of optimize_alpha (all five filter branches, threaded line data), cleaned/reduced alpha and the palette/channel variants is tied to the code differentially; "
+        "every filtered stream and every --alpha output file is decoded by the extracted specification and must be alpha-equivalent to the input.",
+   design="DESIGN.md §3 C03",
+   note=BASE_NOTE + "PARTIAL: image-level lift not yet proved in Coq (same layout argument as C01).",
+   technique="Coq proof (pixel-level) + differential correspondence + spec oracle (alpha-equivalence)"),
+ "C15": dict(
+   text="Machine-checked (Properties/C15.v): the scaling function equals round(v/257) on all 16-bit values, that is the unique nearest 8-bit value (no ties), the colour key is rounded the same way, "
+        "and every scaled pixel means exactly the rounded samples under the rounded key. The Rust f32 expression is tied to the integer model EXHAUSTIVELY (65536 values) and in every channel position of every 16-bit colour type on each run; "
+        "end-to-end --scale16 outputs are decoded by the extracted specification.",
+   design="DESIGN.md §3 C15",
+   note=BASE_NOTE + "f32 arithmetic of rustc is not modelled in Flocq; it is compared exhaustively instead. Scaling belongs to the bit-depth class: with bit-depth changes disabled (C08) nothing is scaled. Image-level lift as in C01 (partial).",
+   technique="Coq proof (lia over all 16-bit values) + exhaustive correspondence + spec oracle"),
  "C18": dict(
    text="Machine-checked theorems (Properties/C18.v), for every width and height >= 1 and every pixel size >= 1 bit, no bound: the scan-line iterator emits exactly the "
         "specification's Adam7 pass rows and byte lengths (empty passes omitted); raw_data_size equals the specification's total; the routing table of interlace_image is the "
